@@ -60,20 +60,19 @@ getStartIndex(
     // We always subtract 1 for C-style index, since
     // XPath indexes from 1.  
 
-    // If we end up with NaN, INF, or -INF, then no possible index
+    // If we end up with NaN or INF, then no possible index
     // can be greater than or equal to that, so just return
     // the start index as the length of the string.  That
     // will result in an empty string, which is what we want.
     if (DoubleSupport::isNaN(theSecondArgValue) == true ||
-        DoubleSupport::isPositiveInfinity(theSecondArgValue) == true ||
-        DoubleSupport::isNegativeInfinity(theSecondArgValue) == true)
+        DoubleSupport::isPositiveInfinity(theSecondArgValue) == true)
     {
         return theStringLength;
     }
-    // Anything less than, or equal to 1 is 0.
+    // Anything less than, or equal to 1 is 0.  That includes -INF,
+    // since every index is greater than that.
     else if (DoubleSupport::lessThanOrEqual(theSecondArgValue, 1) == true)
     {
-        assert(DoubleSupport::round(theSecondArgValue) == theSecondArgValue);
 
         return 0;
     }
@@ -112,7 +111,6 @@ getSubstringLength(
 {
     assert(theStartIndex < theSourceStringLength);
     assert(DoubleSupport::isNaN(theSecondArgValue) == false);
-    assert(DoubleSupport::isNegativeInfinity(theSecondArgValue) == false);
     assert(DoubleSupport::isPositiveInfinity(theSecondArgValue) == false);
 
     typedef XalanDOMString::size_type   size_type;
@@ -131,8 +129,12 @@ getSubstringLength(
     {
         const double    theThirdArgValue = arg3->num(executionContext);
 
+        // If the second argument is -INF, the sum of the second and
+        // third arguments is either -INF or NaN, so no index is less
+        // than it.
         if (DoubleSupport::isNaN(theThirdArgValue) == true ||
-            DoubleSupport::isNegativeInfinity(theThirdArgValue) == true)
+            DoubleSupport::isNegativeInfinity(theThirdArgValue) == true ||
+            DoubleSupport::isNegativeInfinity(theSecondArgValue) == true)
         {
             return 0;
         }
